@@ -19,7 +19,7 @@ View == <<s, pend, nmsg>>
 
 Ids == 0..(N + 1)
 BrokerPackets ==
-    {Pk(t, id, 0, 0) : t \in {"puback", "pubrec", "pubrel", "pubcomp"}, id \in Ids}
+    {Pk(t, id, f, 0) : t \in {"puback", "pubrec", "pubrel", "pubcomp"}, id \in Ids, f \in (IF Version = 5 THEN {0, 1} ELSE {0})}
       \cup {Pk("publish", id, q, 0) : id \in 1..2, q \in {0, 1, 2}}
       \cup {Pk("suback", 1, 0, 0), Pk("unsuback", 1, 0, 0), Pk("pingresp", 0, 0, 0), Pk("pingreq", 0, 0, 0)}
       \cup (IF Version = 5 THEN {Pk("connack", 0, q, 0) : q \in {0, 1, N}} \cup {Pk("disconnect", 0, 0, 0)}
